@@ -444,14 +444,21 @@ def runLine (ts : List String) : Verdict :=
     | _, .hang => .viol "C11:wedge the case did not finish (watchdog)"
     | .facts, .facts t =>
       if t.isEmpty then .viol "C11:closure-table-empty no closure passed to runLaterIfActive was recognised in rpc_server.go"
-      else match t.find? (fun c => !(!c.paths.isEmpty && c.paths.all pathOk)) with
+      else
+        -- a path the reader followed completely must send exactly one result; a path with a construct it could not
+        -- follow is only wrong for sure when it already sends two
+        let definitelyBad := fun (p : List Act) => if p.contains .unknown then replies p ≥ 2 else replies p != 1
+        match t.find? (fun c => c.paths.any definitelyBad) with
         | some c =>
-          match c.paths.find? (fun p => !pathOk p) with
-          | some p =>
-            if p.contains .unknown then .viol s!"C11:closure-unrecognised {c.name}: a path uses a construct the reader does not follow"
-            else .viol s!"C11:reply-count {c.name}: a path sends {replies p} results on queuedResults (must be exactly 1)"
-          | none => .viol s!"C11:closure-unrecognised {c.name}: no path found"
-        | none => .ok ["facts", s!"closures{t.length}"]
+          match c.paths.find? definitelyBad with
+          | some p => .viol s!"C11:reply-count {c.name}: a path sends {replies p} results on queuedResults (must be exactly 1)"
+          | none => .bad "unreachable"
+        | none =>
+          let unrec := t.filter fun c => c.paths.isEmpty || c.paths.any (·.contains .unknown)
+          -- closures the static reader cannot classify are covered by the behavioural tie only (every request type
+          -- is exercised on its validation paths and must yield exactly one reply): reported, not alarmed
+          if unrec.isEmpty then .ok ["facts", s!"closures{t.length}"]
+          else .ok (["facts", s!"closures{t.length}", "static-reader-unrecognised"] ++ unrec.map fun c => s!"unrecognised:{c.name}")
     | .mix nmix idx nfrac, .acc b =>
       let v := vMix nmix idx nfrac
       if b != (v == .accept) then .diff s!"mix request: impl accepted={b} model {repr v}"
